@@ -592,6 +592,56 @@ example : remoteProxyGet (fun _ _ => []) (fun r => r == "zremo".toList)
     "0123456789abcdef0123456789abcdef+3+Rzremo-abc@def+Kx".toList "v2/u/s".toList =
     .forward "zremo".toList "0123456789abcdef0123456789abcdef+3+Aabc@def+Kx".toList "v2/u/".toList := by decide
 
+/-- The `+R` exit as a whole, whatever the remote cluster does (data, refusal, temporary failure
+on every retry, any other error): the answer does not depend on what the local volumes hold; block
+data reaches the client only as the body a Keep service of a *configured* remote cluster delivered
+for the forwarded locator and the caller's salted token; every failure of the remote cluster ends
+in 404 or 502 without data. With `C07_get_requires_signature` this closes the GET handler: with
+blob signing on, local block data is returned only behind the signature gate. -/
+theorem C07_remote_never_local (configured : Str → Bool) (loc tok : Str)
+    (remote : Str → Str → Str → RemoteReply) (ls ls' : Str → Option Str) :
+    remoteProxyServe mac configured loc tok remote ls = remoteProxyServe mac configured loc tok remote ls' ∧
+    (∀ b, (remoteProxyServe mac configured loc tok remote ls).body = some b →
+      (remoteProxyServe mac configured loc tok remote ls).status = 200 ∧
+      ∃ r l t, remoteProxyGet mac configured loc tok = .forward r l t ∧ configured r = true ∧ tok ≠ [] ∧
+        remote r l t = .data b) ∧
+    (∀ r l t, remoteProxyGet mac configured loc tok = .forward r l t → (∀ b, remote r l t ≠ .data b) →
+      (remoteProxyServe mac configured loc tok remote ls).body = none ∧
+      ((remoteProxyServe mac configured loc tok remote ls).status = 404 ∨
+       (remoteProxyServe mac configured loc tok remote ls).status = 502)) := by
+  refine ⟨rfl, ?_, ?_⟩
+  · intro b hb
+    unfold remoteProxyServe at hb ⊢
+    cases hg : remoteProxyGet mac configured loc tok with
+    | status c => rw [hg] at hb; simp at hb
+    | forward r l t =>
+      rw [hg] at hb
+      simp only at hb ⊢
+      have hc := (C07_remote_exit mac configured loc tok).2.2 r l t hg
+      cases hr : remote r l t with
+      | data b' =>
+        rw [hr] at hb
+        simp only [remoteFinish, Option.some.injEq] at hb
+        subst hb
+        exact ⟨rfl, r, l, t, rfl, hc.1, hc.2, hr⟩
+      | notFound => rw [hr] at hb; simp [remoteFinish] at hb
+      | temporary => rw [hr] at hb; simp [remoteFinish] at hb
+      | otherError => rw [hr] at hb; simp [remoteFinish] at hb
+  · intro r l t hg hnd
+    unfold remoteProxyServe
+    rw [hg]
+    simp only
+    cases hr : remote r l t with
+    | data b' => exact absurd hr (hnd b')
+    | notFound => simp [remoteFinish]
+    | temporary => simp [remoteFinish]
+    | otherError => simp [remoteFinish]
+
+example : remoteProxyServe (fun _ _ => []) (fun r => r == "zremo".toList)
+    "0123456789abcdef0123456789abcdef+3+Rzremo-abc@def".toList "v2/u/s".toList (fun _ _ _ => .temporary)
+    (fun _ => some "foo".toList) = ⟨404, none⟩ ∧ remoteRequests 2 .temporary = 3 ∧ remoteRequests 2 .notFound = 1 := by
+  decide
+
 /-! ### Go and the API server outside the common range -/
 
 /-- For every expiry (also before 2²⁸) Go's signed locator is the API server's algorithm applied
